@@ -20,6 +20,9 @@ use std::sync::{Arc, Mutex};
 use std::time::{Duration, Instant};
 
 pub const WALL_LIMIT: Duration = Duration::from_secs(10);
+/// a job that exceeded WALL_LIMIT without any sign of a panic is run once more with this limit
+/// before it is called a hang (a loaded machine must not turn a slow scan into a finding)
+pub const RETRY_LIMIT: Duration = Duration::from_secs(90);
 
 #[derive(Clone, Debug, PartialEq)]
 pub enum Class {
@@ -106,6 +109,14 @@ fn status_class(st: std::process::ExitStatus) -> Class {
 }
 
 fn api_job(slot: &mut Option<ApiChild>, job: &Value) -> Answer {
+  let a = api_job_with(slot, job, WALL_LIMIT);
+  if matches!(a.class, Class::Hang) {
+    return api_job_with(slot, job, RETRY_LIMIT);
+  }
+  a
+}
+
+fn api_job_with(slot: &mut Option<ApiChild>, job: &Value, limit: Duration) -> Answer {
   if slot.is_none() {
     *slot = Some(spawn_api_child());
   }
@@ -124,7 +135,7 @@ fn api_job(slot: &mut Option<ApiChild>, job: &Value) -> Answer {
     c.stdin.flush().expect("flush job");
   }
   // first answer: the load stage; second answer (only after a successful load): the scan stage
-  let first = wait_line(slot);
+  let first = wait_line(slot, limit);
   let load = match first {
     Ok(v) => v,
     Err(class) => return Answer { class: class.clone(), detail: json!({"load": class.name(), "stage": "load"}) },
@@ -134,7 +145,7 @@ fn api_job(slot: &mut Option<ApiChild>, job: &Value) -> Answer {
     let class = if l == "err" { Class::Err } else { Class::Panic };
     return Answer { class, detail: load };
   }
-  match wait_line(slot) {
+  match wait_line(slot, limit) {
     Ok(scan) => {
       let mut detail = load.clone();
       detail["scan"] = scan["scan"].clone();
@@ -156,9 +167,9 @@ fn api_job(slot: &mut Option<ApiChild>, job: &Value) -> Answer {
   }
 }
 
-fn wait_line(slot: &mut Option<ApiChild>) -> Result<Value, Class> {
+fn wait_line(slot: &mut Option<ApiChild>, limit: Duration) -> Result<Value, Class> {
   let c = slot.as_mut().unwrap();
-  match c.rx.recv_timeout(WALL_LIMIT) {
+  match c.rx.recv_timeout(limit) {
     Ok(ans) => Ok(serde_json::from_str(&ans).unwrap_or_else(|_| json!({"bad_answer": ans}))),
     Err(std::sync::mpsc::RecvTimeoutError::Timeout) => {
       let mut dead = slot.take().unwrap();
@@ -212,6 +223,14 @@ fn cli_job(job: &Value) -> Answer {
 }
 
 pub fn run_cli_class(args: &[String], cwd: &Path) -> Answer {
+  let a = run_cli_class_with(args, cwd, WALL_LIMIT);
+  if matches!(a.class, Class::Hang) && a.detail["panicked"] != json!(true) {
+    return run_cli_class_with(args, cwd, RETRY_LIMIT);
+  }
+  a
+}
+
+fn run_cli_class_with(args: &[String], cwd: &Path, limit: Duration) -> Answer {
   let err_path = cwd.join(".agv-stderr");
   let err_file = std::fs::File::create(&err_path).expect("stderr file");
   let mut child = Command::new(sg_bin())
@@ -224,7 +243,7 @@ pub fn run_cli_class(args: &[String], cwd: &Path) -> Answer {
     .env("RUST_BACKTRACE", "0")
     .spawn()
     .expect("spawn agv-sg");
-  let deadline = Instant::now() + WALL_LIMIT;
+  let deadline = Instant::now() + limit;
   let st = loop {
     match child.try_wait() {
       Ok(Some(st)) => break Some(st),
